@@ -458,7 +458,7 @@ func (in *Interp) splice(f *Builtin, a []Value) Value {
 			del = int(x)
 		}
 	}
-	if start+del > arr.n {
+	if del > arr.n-start {
 		del = arr.n - start
 	}
 	end := start + del
